@@ -273,6 +273,8 @@ type capBackend struct {
 	seed uint64
 	seq  atomic.Uint64
 	gate chan struct{} // when non-nil SendEvent blocks until it is closed (cancel script)
+	// when non-nil SendEvent blocks until the harness sends one token (forced interleaving)
+	tokens chan struct{}
 }
 
 func (b *capBackend) Name() string { return fmt.Sprintf("capture%d", b.idx) }
@@ -294,6 +296,9 @@ func (b *capBackend) SendEvent(_ context.Context, e *gostatsd.Event) error {
 		Tags: setOf(e.Tags), Source: string(e.Source), Pri: int(e.Priority), Alert: int(e.AlertType)})
 	if b.gate != nil {
 		<-b.gate
+	}
+	if b.tokens != nil {
+		<-b.tokens
 	}
 	// per-call PRNG: yield and spin a little so that sends overlap and finish out of order
 	x := splitmix(b.seed ^ b.seq.Add(1))
@@ -435,6 +440,7 @@ type pipeline struct {
 	cfg      *config
 	st       *state
 	head     gostatsd.PipelineHandler
+	tail     gostatsd.PipelineHandler // the BackendHandler / forwarder at the end of the chain
 	in       chan []*statsd.Datagram
 	cache    *fakeCache
 	ingest   *httptest.Server
@@ -532,6 +538,7 @@ func buildPipeline(r *mon.Run, cfg *config, seed uint64, gate chan struct{}) (*p
 		go func() { defer p.back.Done(); bh.Run(backCtx) }()
 		tail = bh
 	}
+	p.tail = tail
 	var head gostatsd.PipelineHandler = statsd.NewTagHandler(tail, append(gostatsd.Tags{}, cfg.Static...), nil)
 	if cfg.Cloud {
 		p.cache = newFakeCache(cfg)
@@ -1156,7 +1163,7 @@ func TestCheck(t *testing.T) {
 	r := mon.Start(t, "C19")
 	defer r.Finish()
 	logrus.SetOutput(io.Discard)
-	r.Rule("an execution = one pipeline (DatagramParser x1-4 goroutines -> CloudHandler with a scripted instance cache -> TagHandler with 0-3 static tags -> BackendHandler with 0-4 capturing backends and max-concurrent-events 1-8, or -> HttpForwarderHandlerV2 posting to a capturing upstream; every 7th without cloud stage) fed by 2-7 concurrent senders (datagrams of 1-4 lines in batches of 1-3, mixed with unique metric lines and bad lines; or protobuf EventV2 posts to /v2/event, identity/deflate/lz4) of 10-50 grammar-derived event lines each with a unique id in the title; per sender address the cache scripts hit / negative hit / miss then success / miss then failure, each with and without caching of the answer, answered immediately, after random yields, or only after all senders have returned; backends copy on receipt, yield and spin per call, and fail 1 call in 16. Plus a deterministic script: dispatch cancelled while the only semaphore slot is held, then a dispatch with an already cancelled context, then a live one. Non-trivial: an event that was certainly parked for a lookup, or carries >= 3 distinct optional attributes; distinct by (attribute set, lookup outcome, parked, mode, sink count, transport).")
+	r.Rule("an execution = one pipeline (DatagramParser x1-4 goroutines -> CloudHandler with a scripted instance cache -> TagHandler with 0-3 static tags -> BackendHandler with 0-4 capturing backends and max-concurrent-events 1-8, or -> HttpForwarderHandlerV2 posting to a capturing upstream; every 7th without cloud stage) fed by 2-7 concurrent senders (datagrams of 1-4 lines in batches of 1-3, mixed with unique metric lines and bad lines; or protobuf EventV2 posts to /v2/event, identity/deflate/lz4) of 10-50 grammar-derived event lines each with a unique id in the title; per sender address the cache scripts hit / negative hit / miss then success / miss then failure, each with and without caching of the answer, answered immediately, after random yields, or only after all senders have returned; backends copy on receipt, yield and spin per call, and fail 1 call in 16. Plus a deterministic script: dispatch cancelled while the only semaphore slot is held, then a dispatch with an already cancelled context, then a live one. Plus forced interleavings: max-concurrent-events 1 or 2, 2-5 backends whose SendEvent blocks until the harness releases it; one DispatchEvent hands the event to the first backends and parks on the semaphore, then WaitForEvents is called on another goroutine (on the BackendHandler, the tag stage or the full chain head) and the backends are released one by one (oldest or newest first): at the stamp where WaitForEvents returned every backend must have been handed the event. Non-trivial: an event that was certainly parked for a lookup, or carries >= 3 distinct optional attributes; distinct by (attribute set, lookup outcome, parked, mode, sink count, transport); every interleaving, distinct by (semaphore size, backend count, head, release order, gated set).")
 	r.Assume("the receipt time of an event without d: is judged on the [before send, after DoneFunc] bracket of harness clock readings, in seconds")
 	r.Assume("a hung WaitForEvents / parser is a violation only when the same workload stalls twice (watchdog 20 s)")
 	c := &checker{r: r, stalled: map[string]bool{}}
@@ -1171,7 +1178,9 @@ func TestCheck(t *testing.T) {
 			t.Skip("no case in the replay file")
 		}
 		for k := 0; k < 5; k++ {
-			if rp.Script != "" || rp.Kind == "script" {
+			if rp.Kind == "interleaving" {
+				c.twice("interleaving", rp.Cfg, c.interleave)
+			} else if rp.Script != "" || rp.Kind == "script" {
 				c.twice("script", rp.Cfg, c.cancelScript)
 			} else {
 				c.twice("execution", rp.Cfg, c.execute)
@@ -1192,6 +1201,12 @@ func TestCheck(t *testing.T) {
 	for i := 0; i < nScript; i++ {
 		if r.Mine(i) {
 			c.twice("script", i, c.cancelScript)
+		}
+	}
+	// forced interleaving: WaitForEvents from another goroutine while a dispatch is parked on the semaphore
+	for i, n := 0, r.Pick(72, 1440); i < n; i++ {
+		if r.Mine(i) {
+			c.twice("interleaving", i, c.interleave)
 		}
 	}
 }
